@@ -135,7 +135,7 @@ def main(argv=None):
         samples = acc.samples_nt[:3] + acc.samples_tr[:1]
         cov = {
             "evaluations": acc.evaluations,
-            "distinct_nontrivial": len(acc.nontrivial),
+            "distinct_nontrivial": len(acc.nontrivial) + acc.enum_nontrivial,
             "distinct_cases": len(acc.distinct),
             "rule": mod.RULE,
             "samples": samples,
@@ -148,8 +148,9 @@ def main(argv=None):
             "hypothesis_seed_rule": "seed(VERIF_SEED*1000+shard)",
         }
         if exhaustive:
-            cov["enumerated_subspace"] = {"exhaustive": True, "definition": enum_def,
-                                          "cases": acc.extra.get("enumerated", 0)}
+            cov["enumerated_subspace"] = {"exhaustive": True, "definition": enum_def, "cases": acc.enum_cases,
+                                          "nontrivial": acc.enum_nontrivial,
+                                          "note": "generated cases that fall inside this sub-space are not counted again in distinct_nontrivial"}
         for k, v in acc.extra.items():
             cov.setdefault(k, v)
         ev = {
@@ -160,9 +161,9 @@ def main(argv=None):
             "violations": len(violations),
         }
         common.write_evidence(prop, ev)
-        frac = (len(acc.nontrivial) / max(1, acc.evaluations))
+        frac = ((len(acc.nontrivial) + acc.enum_nontrivial) / max(1, acc.evaluations))
         out("%s tier=%s seed=%d cases=%d distinct=%d nontrivial=%d (%.0f%%) known_excluded=%d wall=%.1fs" % (
-            prop, tier, seed, acc.evaluations, len(acc.distinct), len(acc.nontrivial), 100 * frac,
+            prop, tier, seed, acc.evaluations, len(acc.distinct) + acc.enum_cases, len(acc.nontrivial) + acc.enum_nontrivial, 100 * frac,
             sum(excluded_known.values()), time.time() - t0))
         if os.environ.get("VERIF_VERBOSE"):
             out("classes: " + json.dumps(cov["classes"]))
